@@ -229,6 +229,7 @@ def generate(ctx):
             ctx.check("save_load", {"rels": rels, "resave": resave})
         for r in rels:
             ctx.corr("toMido", P.op_toMido(r))
+            ctx.corr("encodeMido", P.op_encodeMido(r))
         # the load half, through the real file, against the model's convert
         evs = []
         for r in rels:
